@@ -365,6 +365,10 @@ pub(crate) async fn exec_model_trace_world(t: Trace, prop: &'static str, w: Worl
     let mut ctx: u32 = 0;
     let mut ambiguous: Option<String> = None;
     let mut extra_hint: u32 = 0;
+    // backpressure episodes ("defer:on" .. "defer:off"): receivers have bounded windows and drain in a
+    // seeded order, so lines are compared once, as multisets over the whole episode
+    let mut deferring = false;
+    let mut deferred_obs: Vec<Vec<String>> = vec![];
     // name (channel or nick) -> (properties of recent operations on it, step of the last one)
     let mut dirty: std::collections::HashMap<String, (u32, usize)> = std::collections::HashMap::new();
     let mut viol: Option<Violation> = None;
@@ -412,13 +416,21 @@ pub(crate) async fn exec_model_trace_world(t: Trace, prop: &'static str, w: Worl
                 w.apply(a).await;
             }
             Action::Window { c, .. } => {
-                // a reader with a bounded window is not judged line by line
-                if let Some(cn) = m.conns.get_mut(*c) {
-                    cn.deaf = true;
+                // a reader with a bounded window is not judged line by line (outside an episode: not at all)
+                if !deferring {
+                    if let Some(cn) = m.conns.get_mut(*c) {
+                        cn.deaf = true;
+                    }
                 }
                 w.apply(a).await;
             }
             Action::Mark { m: mk } => {
+                if mk == "defer:on" {
+                    deferring = true;
+                    deferred_obs = vec![];
+                } else if mk == "defer:off" {
+                    deferring = false;
+                }
                 if let Some(rest) = mk.strip_prefix("ctx:") {
                     ctx = rest.split(',').map(|p| prop_bit(p.trim())).fold(0, |a, b| a | b);
                 }
@@ -433,6 +445,24 @@ pub(crate) async fn exec_model_trace_world(t: Trace, prop: &'static str, w: Worl
                 let mut obs_canon: Vec<Vec<String>> = obs.iter().map(|o| o.lines.iter().map(|l| canon(l)).collect()).collect();
                 while obs_canon.len() < m.conns.len() {
                     obs_canon.push(vec![]);
+                }
+                if deferring || !deferred_obs.is_empty() {
+                    // accumulate; compare when the episode is over
+                    while deferred_obs.len() < obs_canon.len() {
+                        deferred_obs.push(vec![]);
+                    }
+                    for (i, v) in obs_canon.iter_mut().enumerate() {
+                        deferred_obs[i].append(v);
+                    }
+                    if deferring {
+                        let any_panic = !rt::PANIC_LOG.with(|p| p.borrow().is_empty());
+                        if !any_panic {
+                            step += 1;
+                            continue;
+                        }
+                    }
+                    obs_canon = std::mem::take(&mut deferred_obs);
+                    out.count("fault.backpressure_episode", 1);
                 }
                 // deaf / dead connections: nothing is judged on them
                 let mut discs = match_step(&exps, &mut obs_canon);
